@@ -76,6 +76,8 @@ def wilson(ctx, m):
             continue
         k = p['kind']
         variant, bounds = E.interval_parts(v)
+        if not oracle_guard(ctx, m, 'C02:wilson', p['pc'], bounds):
+            continue
         seen.add(k)
         if variant != 'TwoSided' or len(bounds) != 2:
             m.violated_structurally('C02:wilson:shape:' + KNAME[k], 'C02:wilson:shape', 'proportion interval must be stored two-sided, got %s' % variant)
@@ -128,6 +130,8 @@ def wald(ctx, m):
             continue
         k = p['kind']
         variant, bounds = E.interval_parts(v)
+        if not oracle_guard(ctx, m, 'C02:z_normal', p['pc'], bounds):
+            continue
         if variant != 'TwoSided':
             m.violated_structurally('C02:z_normal:shape:' + KNAME[k], 'C02:z_normal:shape', 'got %s' % variant)
             continue
